@@ -133,6 +133,7 @@ def run_verus(path, rlimit=None, seed=None, extra=None, timeout=900, multi=8):
 
 import threading
 REPLAY_LOCK = threading.Lock()
+CLI_LOCK = threading.Lock()
 
 
 def tag(repo):
@@ -412,11 +413,27 @@ def replay_bin(repo):
     return os.path.join(td, "release", "copia-replay"), None
 
 
+def cli_bin(repo):
+    """build (incrementally) the real `copia` CLI of the tree under check; returns path or None"""
+    td = os.path.join(VERIF, ".cache", "cli-target" + tag(repo))
+    env = dict(os.environ, CARGO_NET_OFFLINE="true", CARGO_TARGET_DIR=td)
+    with CLI_LOCK:
+        rc, so, se, _ = run(["cargo", "build", "--offline", "--features", "cli", "--bin", "copia", "-q"], cwd=repo, env=env, timeout=1800)
+    b = os.path.join(td, "debug", "copia")
+    return b if rc == 0 and os.path.exists(b) else None
+
+
 def search_witness(repo, contract, seed, budget=20):
     b, err = replay_bin(repo)
     if b is None:
         return dict(error="replay crate does not build against this tree: " + (err or ""))
-    rc, so, se, _ = run([b, "search", contract, str(seed), str(budget)], timeout=budget + 60)
+    env = dict(os.environ)
+    if contract.startswith("run_") or contract.startswith("cli"):
+        cb = cli_bin(repo)
+        if cb is None:
+            return dict(error="the CLI of this tree does not build")
+        env["COPIA_BIN"] = cb
+    rc, so, se, _ = run([b, "search", contract, str(seed), str(budget)], timeout=budget + 120, env=env)
     for ln in so.splitlines():
         if ln.startswith("WITNESS "):
             try:
@@ -432,7 +449,14 @@ def twin_validate(pid, spec, repo, tier, seed, out):
         out.undecided.append("replay crate does not build against this tree (assumed contracts not validated): " + (err or "")[-300:])
         return
     budget = spec.get("quick", 3) if tier == "quick" else spec.get("thorough", 60)
-    rc, so, se, wall = run([b, "twin", spec["name"], str(seed), str(budget)], timeout=budget * 4 + 120)
+    env = dict(os.environ)
+    if spec.get("needs_cli"):
+        cb = cli_bin(repo)
+        if cb is None:
+            out.undecided.append("twin %s: the CLI of this tree does not build" % spec["name"])
+            return
+        env["COPIA_BIN"] = cb
+    rc, so, se, wall = run([b, "twin", spec["name"], str(seed), str(budget)], timeout=budget * 4 + 120, env=env)
     out.cmds.append("replay twin %s %d %d" % (spec["name"], seed, budget))
     cases = 0
     for ln in so.splitlines():
@@ -631,7 +655,10 @@ def do_replay(path, repo):
     if b is None:
         print("replay crate does not build: " + str(err))
         return 2
-    rc, so, se, _ = run([b, "run", json.dumps(w)], timeout=120)
+    env = dict(os.environ)
+    if str(w.get("kind", "")).startswith("cli"):
+        env["COPIA_BIN"] = cli_bin(repo) or ""
+    rc, so, se, _ = run([b, "run", json.dumps(w)], timeout=120, env=env)
     sys.stdout.write(so)
     sys.stderr.write(se)
     return rc
